@@ -62,6 +62,7 @@ type Ceremony struct {
 	ReinitHashes map[string][]byte
 	// MachinesRestartedFirst: the restored machines were stopped and reopened before the reinit operation.
 	MachinesRestartedFirst bool
+	SeedSetTwice           bool
 	// ReinitFile: the reinitialisation file as written by the dkg_reinitializer binary (tool-chain worlds).
 	ReinitFile string
 }
@@ -357,6 +358,24 @@ func ReinitFrom(old *Ceremony, commSeed uint64, adapt func(*types.ReDKG) (*types
 	}
 	ce := &Ceremony{W: w, N: old.N, T: old.T, Round: old.Round}
 	ce.ReinitHashes = captureReinitHashesHook(w)
+	if RepeatSetSeed != nil && RepeatSetSeed(commSeed) {
+		// the operator of a restored machine types `set_seed` with the mnemonic a second time in the same
+		// session (the command's two library calls, as cmd/airgapped makes them)
+		for _, nd := range w.Nodes {
+			if nd.Cold == nil {
+				continue
+			}
+			if err := nd.Cold.SetBaseSeed(nd.Mnemonic); err != nil {
+				w.Close()
+				return nil, nil, fmt.Errorf("second set_seed: %w", err)
+			}
+			if err := nd.Cold.GenerateKeys(); err != nil {
+				w.Close()
+				return nil, nil, fmt.Errorf("second set_seed: %w", err)
+			}
+		}
+		ce.SeedSetTwice = true
+	}
 	if RestartRestoredMachines != nil && RestartRestoredMachines(commSeed) {
 		// the machines were restored from their mnemonics in an earlier session: they are stopped and
 		// reopened from their databases (keys and seed loaded, not set) before the reinitialisation reaches them
@@ -432,6 +451,10 @@ func ReinitFrom(old *Ceremony, commSeed uint64, adapt func(*types.ReDKG) (*types
 // RestartRestoredMachines, when set (C20), decides per reinitialisation whether the freshly restored
 // machines are restarted before they see the reinit operation.
 var RestartRestoredMachines func(commSeed uint64) bool
+
+// RepeatSetSeed, when set (C20), decides per reinitialisation whether the operators enter their
+// mnemonics a second time on the restored machines.
+var RepeatSetSeed func(commSeed uint64) bool
 
 var captureReinitHashesHook = func(w *world.World) map[string][]byte { return captureReinitHashes(w) }
 
